@@ -332,6 +332,12 @@ def model_handler(h):
     out.update(max_bytes=ms, old_files=of, when=when, interval=iv,
                delay=bool(delay), encoding=enc)
     fv, hasref, unknown = format_verdict(h)
+    if fv == "accept" and (h.get("style") or "classic").lower() != "classic" \
+            and h.get("formatter") == "zcsim.logfmt.StrictFormatter":
+        # the application's formatter class checks the text as a %-style
+        # format: whether the section is accepted is its business -- but an
+        # accepted section builds a working formatter
+        fv = "unspec"
     out["format_verdict"], out["uses_unknown"] = fv, unknown
     if h.get("style") not in (None, "classic", "format", "template",
                               "safe-template", "CLASSIC", "Format"):
@@ -363,9 +369,8 @@ def model_handler(h):
                 len(w_) == 2 and w_[0] == "W" and w_[1] in "0123456")):
             spec = "reject"
         if enc is not None:
-            import codecs
             try:
-                codecs.lookup(enc)
+                "".encode(enc)        # known, and an encoding of text
             except LookupError:
                 spec = "reject"
     for v in (spec, fv):
@@ -564,7 +569,9 @@ def gen_handler(rng, k, p_bad=0.3):
     if rng.random() < 0.2 and (bad or not std):
         h["encoding"] = rng.choice(["utf-8", "latin-1", "ascii"])
         if bad and rng.random() < 0.4:
-            h["encoding"] = rng.choice(["no-such-codec", "utf-99", "ebcdic!"])
+            # (unknown to Python, or a codec that is no TEXT encoding)
+            h["encoding"] = rng.choice(["no-such-codec", "utf-99", "ebcdic!",
+                                        "rot13", "hex", "base64", "zlib"])
     if bad and h.get("when") and rng.random() < 0.4:
         h["when"] = rng.choice(["Q", "W7", "W", "midnite", "5", "DD", "w9"])
     if rng.random() < 0.7:
@@ -586,6 +593,7 @@ def gen_handler(rng, k, p_bad=0.3):
         # a formatter callable of the application that knows nothing about
         # styles: records still render in the configured format and style
         h["formatter"] = rng.choice(["zcsim.logfmt.PlainFormatter",
+                                     "zcsim.logfmt.StrictFormatter",
                                      "zcsim.logfmt.KwFormatter",
                                      "zcsim.logfmt.make_formatter",
                                      "zcsim.logfmt.make_formatter_kw"])
